@@ -126,6 +126,23 @@ pub fn snapshot() -> Tree {
     out
 }
 
+/// The directories below ROOT (physical paths; links are not followed).
+pub fn snapshot_dirs() -> std::collections::BTreeSet<String> {
+    let mut out = std::collections::BTreeSet::new();
+    fn rec(dir: &Path, out: &mut std::collections::BTreeSet<String>) {
+        let Ok(rd) = std::fs::read_dir(dir) else { return };
+        for e in rd.flatten() {
+            let Ok(ft) = e.file_type() else { continue };
+            if ft.is_dir() {
+                out.insert(e.path().to_string_lossy().into_owned());
+                rec(&e.path(), out);
+            }
+        }
+    }
+    rec(Path::new(ROOT), &mut out);
+    out
+}
+
 #[derive(Clone, Debug, Serialize, Deserialize, PartialEq, Eq)]
 pub struct Fault {
     /// index of the tree call (0-based, in the shim's numbering)
